@@ -41,11 +41,14 @@ The model interprets the *program as the final pass sees it*: every definition o
 table (forward references are legal, manual "Forward References"), variables (SET) have the value of the
 latest assignment in program order.
 
-A program ("case") is JSON:  dict(cpu=..., macros=[dict(name, glob, body=[item..])], prog=[item..]).
+A program ("case") is JSON:  dict(cpu=..., macros=[dict(name, glob, body=[item..])], prog=[item..],
+D=[[name, value]..] symbols defined with -D on the command line).
 Items (dict, key "k"):
   def   n how(equ|=|equ2|set|:=|lab|lab:|label) [v] [of] [str] label kinds take the program counter; of=dict(n,q):
                                                            the value is the symbol `of` plus v; str: the symbol is
-                                                           the string "v" (references then read it as val(name))
+                                                           the string "v" (references then read it as val(name));
+                                                           reg (68000, how reg|equ|set): register symbol, v = 0..15
+                                                           for D0-D7, A0-A7; references: move.w name,d0
   rept  c body [glob] REPT c[,{GLOBALSYMBOLS}] ... ENDM (labels in the body are local to each repetition unless glob)
   irp   p a body     IRP p,a1,a2.. ... ENDM; references in the body whose name is p stand for the arguments
   proc  n items      the manual's macro pair: proc n = SECTION n / PUBLIC n:PARENT / n LABEL $ ; endp n = ENDSECTION n
@@ -72,7 +75,7 @@ CPUS = {
     "6809": dict(cpu="6809", word="fdb", big=True, nop=b"\x12", pc="*", ins="ldx\t#%s", insb=b"\x8e"),
 }
 LABEL_HOW = ("lab", "lab:", "label")
-CONST_HOW = ("equ", "=", "equ2") + LABEL_HOW
+CONST_HOW = ("equ", "=", "equ2", "reg") + LABEL_HOW
 VAR_HOW = ("set", ":=")
 
 
@@ -89,12 +92,14 @@ class Ev:
 
 
 class Entity:
-    __slots__ = ("kind", "value", "ev", "sect", "name", "via", "label", "thunk", "str")
+    __slots__ = ("kind", "value", "ev", "sect", "name", "via", "label", "thunk", "str", "cmdline", "reg")
 
     def __init__(self, kind, value, ev, sect, name, via=None, label=False, thunk=None, str_=False):
         self.kind, self.value, self.ev, self.sect, self.name, self.via, self.label = kind, value, ev, sect, name, via, label
         self.thunk = thunk       # (event, item) of a constant defined by an expression `symbol+delta`
         self.str = str_          # the value is the string of its decimal digits (read through VAL())
+        self.cmdline = False     # defined with -D on the command line
+        self.reg = False         # register symbol (68000: value 0-7 = D0-D7, 8-15 = A0-A7)
 
 
 def qual_text(q, lower=False):
@@ -105,6 +110,10 @@ def qual_text(q, lower=False):
     if q[0] == "=":
         return "[%s]" % q[1:]
     return "[%s]" % (q_parent_text(q).lower() if lower else q_parent_text(q))
+
+
+def reg_name(r):
+    return "d%d" % r if r < 8 else "a%d" % (r - 8)
 
 
 def wrap_expr(sym, it):
@@ -180,6 +189,10 @@ class Prog:
 
     def _size(self, it):
         k = it["k"]
+        if k == "ref" and it.get("reg"):
+            if it.get("ins") or it.get("x") or it.get("str"):
+                raise Discard("register symbol inside an expression")
+            return 2
         if k == "ref" or k == "tref" or k == "nref" or k == "cref":
             return 2 + (len(self.cpu["insb"]) if it.get("ins") else 0)
         if k == "def":
@@ -295,7 +308,9 @@ class Prog:
                 return "; off"
             if how == "label":
                 return "%s\tlabel\t%s" % (n, cpu["pc"])
-            if it.get("of"):
+            if it.get("reg"):
+                val = reg_name(it["v"])
+            elif it.get("of"):
                 val = "%s%s+%d" % (it["of"]["n"], qual_text(it["of"].get("q")), it["v"])
             elif it.get("str"):
                 val = '"%d"' % it["v"]
@@ -304,6 +319,9 @@ class Prog:
             if how == "equ2":
                 return "\tequ\t%s,%s" % (n, val)
             return "%s\t%s\t%s" % (n, how, val)
+        if k == "ref" and it.get("reg"):
+            # register symbol as source operand: the instruction word shows the register
+            return "\tmove.w\t%s,d0" % ("d0" if off else it["n"] + qual_text(it.get("q"), it.get("pl")))
         if k in ("ref", "tref", "nref", "cref"):
             if off:
                 arg = "0"
@@ -419,15 +437,18 @@ def evaluate(prog, U, off=frozenset()):
             state["amb_area"] = True
             state["amb_dot"] = True
 
-    def enter(key, kind, value, ev, name, via=None, label=False, also=(), thunk=None, str_=False):
+    def enter(key, kind, value, ev, name, via=None, label=False, also=(), thunk=None, str_=False, reg=False):
         """apply [MUT]; returns Entity or None (fault recorded)"""
         old = table.get(key)
         if old is None:
             e = Entity(kind, value, ev, key[1], name, via, label, thunk, str_)
+            e.reg = reg
             table[key] = e
             return e
-        if old.str != str_:
-            raise Discard("one name for string and integer symbols")
+        if old.str != str_ or old.reg != reg:
+            raise Discard("one name for symbols of different types")
+        if old.cmdline:
+            raise Discard("a -D symbol is defined again (the manual does not say whether it is a constant)")
         if kind == "const":
             res.fault("def", ev, "constant %s defined twice" % name if old.kind == "const"
                       else "variable %s redefined as constant" % name, also=also)
@@ -436,6 +457,12 @@ def evaluate(prog, U, off=frozenset()):
             res.fault("def", ev, "constant %s changed with SET" % name, also=also)
             return None
         return old
+
+    # -D name=value: "written to the global symbol table before starting the assembly"
+    for name, value in prog.case.get("D", []):
+        e = Entity("const", value, Ev(i=-1, line=0, path=()), None, name)
+        e.cmdline = True
+        table[(F(name), None)] = e
 
     # ------------------------------------------------------------ pass A: definitions
     for ev in prog.events:
@@ -464,8 +491,11 @@ def evaluate(prog, U, off=frozenset()):
             value = ev.addr if how in LABEL_HOW else it["v"]
             thunk = None
             is_str = bool(it.get("str"))
-            if is_str and (how in LABEL_HOW or it.get("of") or ev.exp is not None):
-                raise Discard("string symbol as label / expression / in a macro body")
+            is_reg = bool(it.get("reg"))
+            if (is_str or is_reg) and (how in LABEL_HOW or it.get("of") or ev.exp is not None):
+                raise Discard("string/register symbol as label / expression / in a macro body")
+            if is_reg and (prog.case["cpu"] != "68000" or is_str or not 0 <= it["v"] <= 15):
+                raise Discard("register symbols are only modelled for the 68000")
             if it.get("of"):
                 if how in LABEL_HOW:
                     raise Discard("label with an expression")
@@ -507,13 +537,14 @@ def evaluate(prog, U, off=frozenset()):
             if via == "public" and kind != "const":
                 raise Discard("PUBLIC of a variable")
             e = enter((N, target), kind, value, ev, name, via, how in LABEL_HOW, also,
-                      thunk if kind == "const" else None, is_str)
+                      thunk if kind == "const" else None, is_str, is_reg)
             if ev.exp is not None and res.faults["def"].get(ev.iid):
                 raise Discard("rejected definition inside a macro body")
             nontemp_defined(name, e is not None)
             if e is not None and extra is not None:
                 table[(F(extra[0]), extra[1])] = Entity("const", value, ev, extra[1], extra[0], "global",
                                                         how in LABEL_HOW, thunk, is_str)
+                table[(F(extra[0]), extra[1])].reg = is_reg
             continue
         if k in ("pub", "fwd"):
             if cur is None:
@@ -543,7 +574,7 @@ def evaluate(prog, U, off=frozenset()):
                     raise Discard("PUBLIC/GLOBAL to the current section")
                 L[mine][N] = (r[1], ev)
             continue
-        if k == "ref" and it.get("str"):
+        if k == "ref" and (it.get("str") or it.get("reg")):
             fwd_at[ev.i] = (cur is not None and it.get("q") is None and F(it["n"]) in lists[cur]["fwd"])
             continue
         if k == "tdef":
@@ -617,7 +648,7 @@ def evaluate(prog, U, off=frozenset()):
         tev, tit = e.thunk
         computing.add(id(e))
         st, t, _ = lookup(tev, tit["of"]["n"], tit["of"].get("q"))
-        if st != "ok" or t.str:
+        if st != "ok" or t.str or t.reg:
             raise Discard("constant defined by an unresolvable symbol is needed")
         if t.kind == "var":
             if at is None or at.i != tev.i or id(t) not in cur_val:
@@ -642,7 +673,7 @@ def evaluate(prog, U, off=frozenset()):
         if ev.iid in off:
             if k in ("ref", "tref", "nref", "cref"):
                 s = Slot(ev, len(prog.cpu["insb"]) if it.get("ins") else 0)
-                s.status, s.value = "value", 0
+                s.status, s.value = "value", (0x3000 if it.get("reg") else 0)
                 s.tags = ["off"]
                 res.slots.append(s)
             continue
@@ -656,7 +687,7 @@ def evaluate(prog, U, off=frozenset()):
                 # the final pass finds must have a value at this point
                 st1, _, _ = lookup(ev, of["n"], "P0" if fwd_at.get(ev.i) else of.get("q"), before=ev.i)
                 st, t, _ = lookup(ev, of["n"], of.get("q"))
-                if st1 != "ok" or st != "ok" or t.str or (t.kind == "var" and id(t) not in cur_val):
+                if st1 != "ok" or st != "ok" or t.str or t.reg or (t.kind == "var" and id(t) not in cur_val):
                     res.disable.add(ev.iid)
                     continue
             if faulty:
@@ -677,8 +708,8 @@ def evaluate(prog, U, off=frozenset()):
             S = F(it["s"]) if it["s"] else ""
             for a in it["a"]:
                 st, e, _ = lookup(ev, a["n"], a.get("q"), use_loc=False)
-                if st != "ok":
-                    raise Discard("PUSHV/POPV of an unresolvable symbol")
+                if st != "ok" or e.reg:
+                    raise Discard("PUSHV/POPV of an unresolvable symbol or a register symbol")
                 if k == "pushv":
                     v = value_of(e, ev)
                     if v is None or (e.kind == "const" and e.ev.i > ev.i):
@@ -743,15 +774,17 @@ def evaluate(prog, U, off=frozenset()):
                 st = "ok"
                 tags = ["form:nameless" + it["c"], "dist%d" % d, "slash" if e.name == "/" else "sign",
                         "across-section" if e.sect != (ev.path[-1] if ev.path else None) else "same-section"]
-        if st == "ok" and e.str != bool(it.get("str")):
-            raise Discard("string symbol read without VAL() or integer symbol read with it")
-        if k == "ref" and it.get("str") and st == "ok":
+        if st == "ok" and (e.str != bool(it.get("str")) or e.reg != bool(it.get("reg"))):
+            raise Discard("symbol read as another type than it has")
+        if k == "ref" and (it.get("str") or it.get("reg")) and st == "ok":
             # VAL() needs a string in every pass: an unknown symbol of pass 1 is replaced by the program counter
-            # (an integer).  Only read string symbols that pass 1 already finds as strings.
+            # (an integer).  Register symbols: "forward references are even more critical ... AS does not know
+            # which type it is going to have, and will decide for a plain integer number".  Only read such
+            # symbols where pass 1 already finds a symbol of that type under the name.
             st1, e1, _ = lookup(ev, it["n"], "P0" if fwd_at.get(ev.i) else it.get("q"), before=ev.i)
-            if st1 != "ok" or not e1.str:
+            if st1 != "ok" or e1.str != e.str or e1.reg != e.reg:
                 st = "skip"
-        elif k == "ref" and it.get("str") and st in ("undef", "qual"):
+        elif k == "ref" and (it.get("str") or it.get("reg")) and st in ("undef", "qual"):
             st = "skip"          # VAL(unknown symbol) ends pass 1 with a fatal 'internal error': not a C13 matter
         if st == "ok":
             v = value_of(e, ev)
@@ -760,6 +793,9 @@ def evaluate(prog, U, off=frozenset()):
                 tags.append("var-before-set")
             else:
                 s.status, s.value = "value", (v + expr_delta(it)) & 0xffff
+                if e.reg:
+                    s.value = 0x3000 | v          # MOVE.W <register>,D0
+                    tags.append("register-symbol")
                 if it.get("x"):
                     tags.append("in-expression")
                 if it.get("ins"):
@@ -767,6 +803,8 @@ def evaluate(prog, U, off=frozenset()):
                 tags.append(e.kind)
                 if e.str:
                     tags.append("string")
+                if e.cmdline:
+                    tags.append("cmdline-symbol")
                 if e.thunk is not None:
                     tags.append("by-expression")
                 if ev.body == "rept":
